@@ -84,6 +84,15 @@ func (l *layout) spellings(kind string, rng *rand.Rand, n int, twoArg bool) []sp
 		{"empty", true, []string{""}},
 	}
 
+	// absolute spellings under the RESOLVED root and under the CONFIGURED root (they differ when the sandbox path is,
+	// or runs through, a symbolic link), plain and with an inside->outside link as a component
+	cfg := strings.TrimSuffix(l.setting, "/")
+	classes = append(classes,
+		cls{"abs-configured-root", true, []string{cfg + "/" + I, cfg + "/sub/../" + I}},
+		cls{"abs-resolved-root-via-link", false, []string{filepath.Join(l.root, l.lrel, T), filepath.Join(l.root, l.labs, T), filepath.Join(l.root, l.chain0, T), l.root + "/./" + l.lrel + "//" + T}},
+		cls{"abs-configured-root-via-link", false, []string{cfg + "/" + l.lrel + "/" + T, cfg + "/" + l.labs + "/" + T, cfg + "/" + l.chain0 + "/" + T}},
+		cls{"abs-configured-root-dotdot", false, []string{cfg + "/../outside/" + T, cfg + "/sub/../../outside/" + T}})
+
 	// composed links
 	classes = append(classes,
 		cls{"dirlink-dotdot", false, []string{l.lrel + "/../outside/" + T, l.labs + "/../outside/" + T, filepath.Join(l.root, l.lrel) + "/../outside/" + T}},
